@@ -4,7 +4,12 @@ import json, os, subprocess
 V = os.path.dirname(os.path.dirname(os.path.abspath(__file__)))
 HOOK = subprocess.check_output(["git", "-C", "/repo", "log", "--format=%H", "--grep=^verif hook", "-n", "5"], text=True).split()
 
+NOTE = "bounded-exhaustive up to the stated bound, sampled beyond; floats compared with exact rationals at 1e-9 relative tolerance; TLC, the BigNat/Rat modules and the Python replay glue are trusted"
 CLAIMED = {
+ "C01": ("7 C01", "TLC model checking of the patterning spec (every charge pattern up to a length bound is a state: sentinel iff no arrangement has variance, kappa well defined, out of range only through the documented family = finding K1) + replay of every state into get_kappa/get_delta/get_deltaMax, clause by clause + TLC trace validation of replies recorded on long random and skewed sequences with call histories", NOTE),
+ "C03": ("7 C03", "TLC model checking over composition space (every (p,n,z) up to a bound plus the 17/18-neutral boundary slab: maximum attained inside the documented family, symmetric, regimes partition) + every composition realised through several permutations/spellings with get_deltaMax()/get_deltaMax(True) fresh, after get_kappa and after random histories, all judged by TLC (value = family maximum, permutant is a rearrangement with exactly that delta)", NOTE),
+ "C05": ("7 C05", "TLC model checking (delta numerator, SCD coefficients and delta-max invariant under reversal / inversion / p<->n for every pattern up to a bound) + replay of every state with random class-preserving substitutions, reversal and inversion into the five getters + TLC trace validation of base and variants on long random sequences", NOTE),
+ "C07": ("7 C07", "TLC model checking of the SCD coefficients (zero with < 2 charges, pattern-only, symmetric) + replay of every pattern up to a bound into get_SCD + TLC trace validation on long random / strongly correlated sequences with a sqrt table whose bracket TLC verifies", NOTE),
  "C02": ("7 C02", "TLC model checking of the patterning spec (every charge pattern up to a length bound is a state; the scaled-integer delta is shown equal to the Das-Pappu definition in exact rationals) + replay of every TLC state into get_delta + TLC trace validation (Trace_Queries) of get_delta replies recorded from the real code on long random sequences with random call histories",
          "bounded-exhaustive in pattern space up to the stated length, sampled beyond; floats compared with exact rationals at 1e-9 relative tolerance; TLC and the BigNat/Rat modules are trusted"),
 }
